@@ -21,6 +21,9 @@ RULES = {
                        {"s": 1, "op": "merge", "others": [2], "conds": ["y == 6", "SLT(y, 0)"], "anc": 0}, {"s": 3, "op": "eval", "e": "y", "n": 20, "extra": []}],
     "merge-with-unsat-side": [A("ULT(x, 3)"), {"s": 0, "op": "branch"}, A("false", 1),
                               {"s": 0, "op": "merge", "others": [1], "conds": ["true", "true"], "anc": None}, {"s": 2, "op": "satisfiable", "extra": []}],
+    "merge-common-unchecked-child": [A("y + z == 7"), A("SGE(y ^ z, 0)"), {"s": 0, "op": "branch"}, A("x == 5", 1), A("UGE(x, 8)", 0),
+                                     {"s": 0, "op": "merge", "others": [1], "conds": ["true", "true"], "anc": None}, {"s": 2, "op": "satisfiable", "extra": []},
+                                     {"s": 2, "op": "eval", "e": "x", "n": 20, "extra": []}],
     "combine-independent": [A("ULT(x, 3)"), {"s": 0, "op": "branch"}, A("y == 6", 1), {"s": 0, "op": "eval", "e": "x", "n": 20, "extra": []},
                             {"s": 0, "op": "combine", "others": [1]}, {"s": 2, "op": "batch_eval", "es": ["x", "y"], "n": 20, "extra": []}],
     "combine-contradictory": [A("ULT(x, 3)"), {"s": 0, "op": "branch"}, A("UGE(x, 8)", 1), {"s": 0, "op": "combine", "others": [1]},
